@@ -1,21 +1,42 @@
 import PsyVerif.Model.Proto
 import PsyVerif.Model.Directives
 open Proto
+open C10
 
-/-- input: a forest `((kind n child ...) ...)`; output: `<writer outcome> <coreOk> <rectOk> <mixOk> <loopsNonEmpty> <kind of first core-rule breaker or ->`. -/
-def kindOf (name : String) (n : Nat) : Option C10.Kind :=
+/-- Protocol.
+* eval:  `((kind n child ...) ...)` (a forest) →
+  `<writer outcome> <coreOk> <rectOk> <mixOk> <nowaitOk> <loopsNonEmpty> <kind of first core/rect/mix breaker or ->`
+* apply: `(A <forest> (region kind n (path) lo len))`, `(A <forest> (loopDir kind n (path) idx))`,
+  `(A <forest> (leaf kind n (path) idx))` → the resulting forest in the same syntax, or `none`. -/
+def kindOf (name : String) (n : Nat) : Option Kind :=
   match name with
-  | "stmt" => some .stmt | "block" => some .block | "loop" => some (.loop n)
+  | "stmt" => some .stmt | "astmt" => some .astmt | "block" => some .block | "loop" => some (.loop n)
   | "ompParallel" => some .ompParallel | "ompDo" => some (.ompDo n)
-  | "ompParallelDo" => some (.ompParallelDo n) | "ompLoop" => some (.ompLoop n)
-  | "ompSingle" => some .ompSingle | "ompMaster" => some .ompMaster
-  | "ompTaskloop" => some .ompTaskloop | "ompTaskwait" => some .ompTaskwait
-  | "ompTarget" => some .ompTarget | "accParallel" => some .accParallel
+  | "ompParallelDo" => some (.ompParallelDo n) | "ompTeamsDPD" => some (.ompTeamsDPD n)
+  | "ompLoop" => some (.ompLoop n)
+  | "ompSingle" => some (.ompSingle (n != 0)) | "ompMaster" => some .ompMaster
+  | "ompTaskloop" => some .ompTaskloop | "ompTask" => some .ompTask | "ompTaskwait" => some .ompTaskwait
+  | "ompTarget" => some .ompTarget | "ompAtomic" => some .ompAtomic | "ompSimd" => some .ompSimd
+  | "ompDeclareTarget" => some .ompDeclareTarget
+  | "accParallel" => some .accParallel
   | "accKernels" => some .accKernels | "accData" => some .accData
-  | "accLoop" => some (.accLoop n) | "accEnterData" => some .accEnterData
+  | "accLoop" => some (.accLoop n) | "accAtomic" => some .accAtomic
+  | "accEnterData" => some .accEnterData | "accUpdate" => some .accUpdate | "accRoutine" => some .accRoutine
   | _ => none
 
-partial def forestOf : List Sexp → Option C10.Forest
+def kindName : Kind → String × Nat
+  | .stmt => ("stmt", 0) | .astmt => ("astmt", 0) | .block => ("block", 0) | .loop d => ("loop", d)
+  | .ompParallel => ("ompParallel", 0) | .ompDo c => ("ompDo", c) | .ompParallelDo c => ("ompParallelDo", c)
+  | .ompTeamsDPD c => ("ompTeamsDPD", c) | .ompLoop c => ("ompLoop", c)
+  | .ompSingle nw => ("ompSingle", if nw then 1 else 0) | .ompMaster => ("ompMaster", 0)
+  | .ompTaskloop => ("ompTaskloop", 0) | .ompTask => ("ompTask", 0) | .ompTaskwait => ("ompTaskwait", 0)
+  | .ompTarget => ("ompTarget", 0) | .ompAtomic => ("ompAtomic", 0) | .ompSimd => ("ompSimd", 0)
+  | .ompDeclareTarget => ("ompDeclareTarget", 0)
+  | .accParallel => ("accParallel", 0) | .accKernels => ("accKernels", 0) | .accData => ("accData", 0)
+  | .accLoop c => ("accLoop", c) | .accAtomic => ("accAtomic", 0) | .accEnterData => ("accEnterData", 0)
+  | .accUpdate => ("accUpdate", 0) | .accRoutine => ("accRoutine", 0)
+
+partial def forestOf : List Sexp → Option Forest
   | [] => some .nil
   | .list (.atom name :: num :: kids) :: rest => do
     let n ← num.nat?
@@ -25,34 +46,55 @@ partial def forestOf : List Sexp → Option C10.Forest
     pure (.cons k body tl)
   | _ => none
 
+partial def showForest : Forest → List String
+  | .nil => []
+  | .cons k body rest =>
+    let (nm, n) := kindName k
+    let kids := showForest body
+    (if kids.isEmpty then s!"({nm} {n})" else s!"({nm} {n} {" ".intercalate kids})") :: showForest rest
+
 def b (x : Bool) : String := if x then "1" else "0"
 
-def kindName : C10.Kind → String
-  | .stmt => "stmt" | .block => "block" | .loop _ => "loop" | .ompParallel => "ompParallel"
-  | .ompDo _ => "ompDo" | .ompParallelDo _ => "ompParallelDo" | .ompLoop _ => "ompLoop"
-  | .ompSingle => "ompSingle" | .ompMaster => "ompMaster" | .ompTaskloop => "ompTaskloop"
-  | .ompTaskwait => "ompTaskwait" | .ompTarget => "ompTarget" | .accParallel => "accParallel"
-  | .accKernels => "accKernels" | .accData => "accData" | .accLoop _ => "accLoop"
-  | .accEnterData => "accEnterData"
-
-/-- kind of the first node (visitor order) that breaks a core rule, for grouping failing inputs -/
-def firstBad (ctx : C10.Ctx) : C10.Forest → Option String
+/-- kind of the first node (visitor order) that breaks a guarded rule, for grouping failing inputs -/
+def firstBad (ar : Env) (pos : Pos) (ctx : Ctx) : Forest → Option String
   | .nil => none
   | .cons k body rest =>
-    if !C10.nodeCore ctx k body then some (kindName k)
-    else match firstBad (k :: ctx) body with
+    if !(nodeCore ar pos ctx k body && nodeRect k body && nodeMix ctx k) then some (kindName k).1
+    else match (if isLeaf k then none else firstBad ar .first (k :: ctx) body) with
       | some x => some x
-      | none => firstBad ctx rest
+      | none => firstBad ar (pos.next k) ctx rest
+
+def evalForest (t : Forest) : String :=
+  let o := match writer t with
+    | .accept => "accept" | .genError => "genError" | .crash => "crash"
+  let ar := envOf t
+  s!"{o} {b (coreOk ar .first [] t)} {b (rectOk t)} {b (mixOk [] t)} {b (nowaitOk t)} {b (loopsNonEmpty t)} {(firstBad ar .first [] t).getD "-"}"
+
+def opOf : Sexp → Option Op
+  | .list [.atom "region", .atom name, num, path, lo, len] => do
+    let k ← kindOf name (← num.nat?)
+    pure (.region k path.natList (← lo.nat?) (← len.nat?))
+  | .list [.atom "loopDir", .atom name, num, path, idx] => do
+    let k ← kindOf name (← num.nat?)
+    pure (.loopDir k path.natList (← idx.nat?))
+  | .list [.atom "leaf", .atom name, num, path, idx] => do
+    let k ← kindOf name (← num.nat?)
+    pure (.leaf k path.natList (← idx.nat?))
+  | _ => none
 
 def handle (s : Sexp) : String :=
   match s with
+  | .list [.atom "A", .list xs, op] =>
+    match forestOf xs, opOf op with
+    | some t, some o =>
+      match applyOp o t with
+      | some t' => "(" ++ " ".intercalate (showForest t') ++ ")"
+      | none => "none"
+    | _, _ => "bad-apply"
   | .list xs =>
     match forestOf xs with
     | none => "bad-forest"
-    | some t =>
-      let o := match C10.writer [] t with
-        | .accept => "accept" | .genError => "genError" | .crash => "crash"
-      s!"{o} {b (C10.coreOk [] t)} {b (C10.rectOk t)} {b (C10.mixOk [] t)} {b (C10.loopsNonEmpty t)} {(firstBad [] t).getD "-"}"
+    | some t => evalForest t
   | _ => "bad-forest"
 
 def main : IO Unit := run handle
